@@ -184,6 +184,8 @@ pub enum Op {
     ExtendLean(u8, u8), // (dst, src): dst.extend([src.clone()])
     /// extend with a filtering char iterator: size_hint = (0, Some(more than is yielded))
     ExtendFiltered(u8),
+    /// extend with two chars from an iterator whose size hint is LYING_HINTS[k]
+    ExtendLying(u8, u8),
     AddAssign(u8),
     Add(u8),
     WriteFmt(u8),
@@ -205,7 +207,7 @@ impl Op {
             New | FromStr(_) | FromString(_) | Collect(_) | ToLeanDisplay(_) | ToLeanSwallow(_) | FromStatic(_) | WithCap(_) | WithCapAbs(_) | Conv(..) => return None,
             Clone(_) | FromRef(_) | ToLeanClone(_) => return None,
             CloneFrom(_, d) | Assign(_, d) => d,
-            Drop(i) | Push(i, _) | PushStr(i, _) | Pop(i) | Remove(i, _) | Insert(i, _, _) | InsertStr(i, _, _) | Truncate(i, _) | Clear(i) | Retain(i, _) | Reserve(i, _) | ShrinkTo(i, _) | ShrinkFit(i) | ExtendChars(i) | ExtendStrs(i) | ExtendLean(i, _) | ExtendFiltered(i) | AddAssign(i) | Add(i) | WriteFmt(i) | ReserveHuge(i, _) | ExtendHuge(i, _) | RetainPanic(i, _) | TruncateAbs(i, _) | PushAscii(i, _) => i,
+            Drop(i) | Push(i, _) | PushStr(i, _) | Pop(i) | Remove(i, _) | Insert(i, _, _) | InsertStr(i, _, _) | Truncate(i, _) | Clear(i) | Retain(i, _) | Reserve(i, _) | ShrinkTo(i, _) | ShrinkFit(i) | ExtendChars(i) | ExtendStrs(i) | ExtendLean(i, _) | ExtendFiltered(i) | ExtendLying(i, _) | AddAssign(i) | Add(i) | WriteFmt(i) | ReserveHuge(i, _) | ExtendHuge(i, _) | RetainPanic(i, _) | TruncateAbs(i, _) | PushAscii(i, _) => i,
         } as usize)
     }
     pub fn is_ctor(self) -> bool {
@@ -250,6 +252,7 @@ impl Op {
             ExtendStrs(_) => "extend_strs",
             ExtendLean(..) => "extend_lean",
             ExtendFiltered(_) => "extend_filtered",
+            ExtendLying(..) => "extend_lying_hint",
             AddAssign(_) => "add_assign",
             Add(_) => "add",
             WriteFmt(_) => "write_fmt",
@@ -412,6 +415,24 @@ impl<I: Iterator> Iterator for HugeHint<I> {
         (self.hint, None)
     }
 }
+
+/// an iterator whose size hint is whatever the harness says (size hints are advisory: the
+/// reference, String, appends what is actually yielded)
+pub struct Hinted<I> {
+    pub it: I,
+    pub lower: usize,
+    pub upper: Option<usize>,
+}
+impl<I: Iterator> Iterator for Hinted<I> {
+    type Item = I::Item;
+    fn next(&mut self) -> Option<I::Item> {
+        self.it.next()
+    }
+    fn size_hint(&self) -> (usize, Option<usize>) {
+        (self.lower, self.upper)
+    }
+}
+pub const LYING_HINTS: [(usize, Option<usize>); 4] = [(0, Some(0)), (0, Some(1)), (5, Some(5)), (1, Some(0))];
 
 pub fn huge_value(which: u8) -> usize {
     match which {
@@ -587,7 +608,7 @@ pub fn grow_bytes(p: &Pool, op: Op) -> usize {
         PushStr(_, s) | InsertStr(_, _, s) => texts(|t| t.strs[s as usize].len()),
         PushAscii(_, n) => n as usize,
         AddAssign(_) | Add(_) | WriteFmt(_) => 2,
-        ExtendChars(_) | ExtendFiltered(_) => 4,
+        ExtendChars(_) | ExtendFiltered(_) | ExtendLying(..) => 4,
         ExtendStrs(_) => 3,
         ExtendHuge(_, n) => [0, 1, 3][n as usize],
         ExtendLean(_, s) => p.m[s as usize].as_ref().map_or(0, |m| m.len()),
@@ -644,7 +665,7 @@ pub fn op_enabled(p: &Pool, op: Op, lim: &Limits) -> bool {
                 },
             }
         }
-        Push(i, _) | PushStr(i, _) | ExtendChars(i) | ExtendFiltered(i) | ExtendStrs(i) | AddAssign(i) | Add(i) | WriteFmt(i) | PushAscii(i, _) | ExtendHuge(i, _) => has(i) && grows_ok(i),
+        Push(i, _) | PushStr(i, _) | ExtendChars(i) | ExtendFiltered(i) | ExtendLying(i, _) | ExtendStrs(i) | AddAssign(i) | Add(i) | WriteFmt(i) | PushAscii(i, _) | ExtendHuge(i, _) => has(i) && grows_ok(i),
         Drop(i) | Pop(i) | Clear(i) | Retain(i, _) | ShrinkTo(i, _) | ShrinkFit(i) | ReserveHuge(i, _) | TruncateAbs(i, _) => has(i),
         Reserve(i, k) => has(i) && lim.post.is_none_or(|post| p.m[i as usize].as_ref().unwrap().len() + texts(|t| t.reserves[k as usize]) <= post),
         RetainPanic(i, k) => has(i) && p.m[i as usize].as_ref().unwrap().chars().count() >= k as usize,
@@ -862,6 +883,17 @@ pub fn exec(p: &mut Pool, op: Op, form: Form) -> (Outcome, Expect) {
                 Form::Try => quiet(|| h.extend([String::from("b"), String::from("cd")])),
             };
             m.extend(["b", "cd"]);
+            (r.map(|_| Outcome::Done(Out::Unit)).unwrap_or_else(Outcome::Panic), Expect::Done(Out::Unit))
+        }
+        ExtendLying(i, k) => {
+            let (h, m) = hm!(i);
+            let (lower, upper) = LYING_HINTS[k as usize];
+            let items = ['a', '€'];
+            let r = match form {
+                Form::Plain => quiet(|| h.extend(Hinted { it: items.into_iter(), lower, upper })),
+                Form::Try => quiet(|| h.extend(Hinted { it: items.iter(), lower, upper })),
+            };
+            m.extend(items);
             (r.map(|_| Outcome::Done(Out::Unit)).unwrap_or_else(Outcome::Panic), Expect::Done(Out::Unit))
         }
         ExtendFiltered(i) => {
